@@ -491,6 +491,9 @@ func (bh *Header) AddReference(r *Reference) error {
 		} else if !equalRefs(r, &Reference{id: -1, name: er.name, lRef: er.lRef}) {
 			return errDupReference
 		}
+		if r.owner != nil && r.owner != bh {
+			return errUsedReference
+		}
 		if r.md5 == "" {
 			r.md5 = er.md5
 		}
@@ -503,6 +506,14 @@ func (bh *Header) AddReference(r *Reference) error {
 		if r.uri == nil {
 			r.uri = er.uri
 		}
+		if len(r.otherTags) == 0 {
+			r.otherTags = er.otherTags
+		}
+		// r takes the place of er.
+		er.owner = nil
+		er.id = -1
+		r.owner = bh
+		r.id = dupID
 		bh.refs[dupID] = r
 		return nil
 	}
